@@ -606,3 +606,36 @@ def scanned_equiv_stream(ctx, stream, n):
                                        "files": dict(tree), "options": kw, "rule_ops": ops, "scanned": a, "direct": b})
                 if len(ctx.violations) >= 3:
                     return
+
+
+# --------------------------------------------------------------------------------------- re-specified subjects / objects
+def respecify_stream(ctx: Ctx, stream: Stream, n: int):
+    """a naming call made again at the same position REPLACES the earlier specification (a kept rule beginning that is completed
+    several times): the rule with an extra, different naming call in front of the final one equals the rule without it"""
+    rng = ctx.rng("respecify")
+    base, twice = [], []
+    for c in random_cases(rng, n, comps=gen.IDENT_ADVERSARIAL, strict=False, max_nodes=12, max_imports=10):
+        ops = list(c["ops"])
+        pos = [i for i, (op, arg) in enumerate(ops) if op in ("named", "sub")]
+        if not pos:
+            continue
+        i = rng.choice(pos)
+        other = rng.sample(c["nodes"], rng.randint(1, 2))
+        extra = (rng.choice(["named", "sub"]), other)
+        c2 = dict(c)
+        c2["ops"] = ops[:i] + [extra] + ops[i:]
+        c2["spec"] = None
+        base.append(c)
+        twice.append(c2)
+    a = pmap(gen.impl_rule, base, ctx.jobs)
+    b = pmap(gen.impl_rule, twice, ctx.jobs)
+    for c, c2, x, y in zip(base, twice, a, b):
+        stream.evaluations += 1
+        stream.count("outcome:" + x.split(":")[0].split(" ")[0])
+        stream.nontrivial.add(digest((c["nodes"], c["imps"], c2["ops"])))
+        if x.rpartition(" I=")[0] != y.rpartition(" I=")[0]:
+            ctx.violations.append({"kind": "property-violation",
+                                   "what": "a naming call repeated at the same position does not replace the earlier specification: the rule differs from the rule built with the last specification only",
+                                   "line": gen.rule_line(c2), "with_extra_call": y, "last_specification_only": x, "python": python_snippet(c2)})
+            if len(ctx.violations) >= 3:
+                return
